@@ -269,6 +269,9 @@ fn judge_network(chain: &[(u8, Cls)], actual: &[u8], res: &Result<String, String
             };
         }
         idx += 1;
+        if prev_kind == "stall" {
+            classes.push("next-endpoint-tried-after-stall");
+        }
         if matches!(last_contacted, Some(Cls::Ambiguous)) {
             classes.push("malformed-continues-chain");
         }
@@ -356,6 +359,20 @@ fn cls_label(c: &Cls) -> &'static str {
 // ---------------------------------------------------------------------------
 // scenario interpreter
 
+/// Safety net before a failure is reported: every port that is supposed to
+/// refuse must still refuse (nobody else listens on it).  Some(msg) = the
+/// environment is not what the case assumes.
+async fn refusing_ports_still_refuse(ports: &[(u16, bool)]) -> Option<String> {
+    for (port, refuses) in ports {
+        if *refuses {
+            if let Ok(Ok(_)) = tokio::time::timeout(Duration::from_secs(20), tokio::net::TcpStream::connect(("127.0.0.1", *port))).await {
+                return Some(format!("port {port} must refuse connections but something listens on it (foreign listener?)"));
+            }
+        }
+    }
+    None
+}
+
 struct Entry {
     fp: String,
     prev_client: bool,
@@ -398,6 +415,10 @@ async fn scenario(c: &Case, known: &Known) -> Result<Outcome, String> {
 
     macro_rules! fail {
         ($key:expr, $msg:expr) => {{
+            let refusing = [(ports[0], hb == HttpBeh::Refuse), (ports[1], pb == HttpBeh::Refuse), (ports[2], tb == TcpBeh::Refuse)];
+            if let Some(m) = refusing_ports_still_refuse(&refusing).await {
+                return Err(m);
+            }
             out.fail = Some(($key.to_string(), format!("{} | trace: {}", $msg, trace.join(" ; "))));
             return Ok(out);
         }};
@@ -684,6 +705,16 @@ async fn split_case(c: &SplitCase) -> Result<Outcome, String> {
         Ok(a) => format!("Ok({})", short(a)),
         Err(e) => format!("Err({})", short(e)),
     };
+    let failed = results[0].as_ref().ok() != Some(&want) || results[1].as_ref().ok() != results[0].as_ref().ok();
+    if failed {
+        if let Some(m) = refusing_ports_still_refuse(&[(ports[0], true), (ports[1], true)]).await {
+            return Err(m);
+        }
+        let log = sh.since(0);
+        if log.iter().any(|(s, _)| *s != 2) {
+            return Err(format!("split case: unexpected request log {log:?} for {c:?}"));
+        }
+    }
     if results[0].as_ref().ok() != Some(&want) {
         out.fail = Some((
             format!("C13:ribbit:valid-answer-not-returned:{}", fmt_name(c.fmt)),
@@ -931,5 +962,9 @@ fn main() {
         ck.run(Section::pbt("stall", 48, stall_case_st, move |c: &Case| check_scenario(c, &k2)).shards(16).shrink_iters(0));
         drain_infra(&mut ck);
     }
+    // no mock task, socket or thread may outlive its case: what is left at the end is the
+    // process baseline (stdio, the protocol crate's shared cache runtime)
+    let count = |p: &str| std::fs::read_dir(p).map(|d| d.count()).unwrap_or(0);
+    ck.extra("resources_at_end", serde_json::json!({"open_fds": count("/proc/self/fd"), "threads": count("/proc/self/task")}));
     ck.finish();
 }
